@@ -5,3 +5,5 @@ package network
 
 // simNet is the simulated-transport seam; active only under the verif build tag.
 func simNet() Network { return nil }
+
+func simOffline() bool { return false }
